@@ -121,15 +121,23 @@ class Mod:
                             assigned[x.id] = assigned.get(x.id, 0) + 1
                 if isinstance(n, ast.Assign) and len(n.targets) == 1 and isinstance(n.targets[0], ast.Name):
                     self.consts[n.targets[0].id] = n.value
-            elif isinstance(n, (ast.ClassDef, ast.For, ast.While, ast.If, ast.With, ast.Try, ast.Delete)):
-                # top-level control flow could rebind anything
+            elif isinstance(n, ast.Expr) and isinstance(n.value, ast.Constant):
+                pass                                   # docstring
+            elif isinstance(n, ast.ClassDef):
+                assigned[n.name] = assigned.get(n.name, 0) + 1
+            else:
+                # top-level control flow (if / try / for / with / del / ...) could rebind anything it mentions
                 for x in ast.walk(n):
                     if isinstance(x, ast.Name) and isinstance(x.ctx, (ast.Store, ast.Del)):
                         assigned[x.id] = assigned.get(x.id, 0) + 2
-                    if isinstance(x, (ast.FunctionDef, ast.ClassDef)) and x is not n:
+                    if isinstance(x, (ast.FunctionDef, ast.AsyncFunctionDef, ast.ClassDef)):
                         assigned[x.name] = assigned.get(x.name, 0) + 2
-                if isinstance(n, ast.ClassDef):
-                    assigned[n.name] = assigned.get(n.name, 0) + 1
+                    if isinstance(x, (ast.Import, ast.ImportFrom)):
+                        for al in x.names:
+                            b = al.asname or al.name.split('.')[0]
+                            assigned[b] = assigned.get(b, 0) + 2
+                    if isinstance(x, ast.ExceptHandler) and x.name:
+                        assigned[x.name] = assigned.get(x.name, 0) + 2
         self.assigned = assigned
         for x in assigned:
             if x in RESERVED | SIBLINGS or x in self.funcs:
